@@ -11,8 +11,15 @@ items, dynamic extra fields) runs on c1 ONLY.  Clauses:
                    vars(field) rendered deeply, declared defaults evaluated, config types and their schemas) unchanged;
   * sibling-item : item configurations of c1 that the operation does not address (other items of the same list, items
                    of another list with the same reused item schema / config type) are unchanged.
-Not flagged (outside the property's quantifier "mutable defaults on typed fields"): nested mutable values inside the
-default of an UNTYPED ListField()/DictField() (shallow copy), user-made aliasing (assigning one object to two configs).
+Cross-assignment class: c2 receives c1's container VALUE OBJECT (`c2.f = c1.f`, dotted, load_tree, constructor keyword)
+and an in-place mutation (top level / nested) through c1 or c2 must not show in the other.  Scoping: `c2.f = c1.f` is an
+operation on BOTH configurations, whereas the property quantifies over "all operation sequences on one of the pair"; so
+the library is held to this only where it itself builds a per-configuration container, i.e. for kinds whose EVERY
+container level is a library-made proxy (ListProxy/DictProxy, which carry `.cfg`): list<int>, dict<str,int>,
+list<list<int>>, dict<str,list<int>>, list<dict<str,int>>, dict<str,dict<str,int>>.
+Not flagged / not enumerated: untyped ListField()/DictField() at any level (documented pass-through: they store the
+object the user hands them, so a plain list/dict given to two holders is one object), a Config item the user puts into
+two lists, and nested mutable values inside the default of an UNTYPED ListField()/DictField().
 """
 import base64
 import itertools
@@ -302,6 +309,16 @@ SPECS = [
     ("list<schema{untyped-dict}>/default", {"root": {"t": "schema", "fields": [
         ["items", {"t": "list", "item": {"t": "schema", "good": [{"meta": {"z": 5}}], "fields": [["meta", {"t": "dict"}]]},
                    "default": _c([{"meta": {"k": 1}}])}]]}}),
+    # ---- EMPTY container defaults, typed and untyped
+    ("empty-defaults", {"root": {"t": "schema", "fields": [
+        ["li0", {"t": "list", "item": {"t": "int"}, "default": _c([])}],
+        ["lu0", {"t": "list", "default": _c([])}],
+        ["ll0", {"t": "list", "item": {"t": "list"}, "default": _c([])}],
+        ["ls0", {"t": "list", "item": {"t": "schema", "good": [{"q": 5}], "fields": [["q", {"t": "int", "default": _c(0)}]]},
+                 "default": _c([])}],
+        ["d0", {"t": "dict", "kf": {"t": "string"}, "vf": {"t": "int"}, "default": _c({})}],
+        ["du0", {"t": "dict", "default": _c({})}],
+        ["dl0", {"t": "dict", "kf": {"t": "string"}, "vf": {"t": "list"}, "default": _c({})}]]}}),
     # ---- the same shapes with a callable default that returns fresh objects: nothing may be shared
     ("list<dict>/fresh", {"root": {"t": "schema", "fields": [
         ["items", {"t": "list", "item": {"t": "dict"}, "default": {"fresh": [{"a": 1}]}}]]}}),
@@ -554,6 +571,82 @@ def check(top, ops):
     return out
 
 
+# (kind, field spec, constant default, value assigned in the "assigned" source state, [(level, nav below f, method, args)])
+# Scope of the cross-assignment class: ONLY container kinds whose every container level is a library-made proxy
+# (ListProxy / DictProxy, which carry `.cfg`).  `c2.f = c1.f` is an operation on BOTH configurations, while the C13
+# quantifier is "all operation sequences on one of the pair"; the library is therefore held to it only where it
+# builds a per-configuration container itself.  Deliberately NOT enumerated: untyped ListField()/DictField() at any
+# level (they store the object the user hands them - documented pass-through, so a plain list/dict given to two
+# holders stays one object) and lists of Schema/ConfigType items (a Config object the user puts into two lists).
+_SI = {"t": "dict", "kf": {"t": "string"}, "vf": {"t": "int"}}
+CROSS = [
+    ("list<int>", {"t": "list", "item": {"t": "int"}}, [1, 2], [3, 4], [("top", [], "append", [9]), ("top", [], "setitem", [0, 7])]),
+    ("dict<str,int>", _SI, {"k": 1}, {"k": 2}, [("top", [], "setitem", ["zz", 9]), ("top", [], "pop", ["k"])]),
+    ("list<list<int>>", {"t": "list", "item": {"t": "list", "item": {"t": "int"}}}, [[1], [2]], [[3]],
+     [("top", [], "append", [[7]]), ("nested", [0], "append", [9]), ("nested", [0], "setitem", [0, 8])]),
+    ("dict<str,list<int>>", {"t": "dict", "kf": {"t": "string"}, "vf": {"t": "list", "item": {"t": "int"}}}, {"k": [1]}, {"k": [2]},
+     [("top", [], "setitem", ["zz", [9]]), ("nested", [{"k": "k"}], "append", [9])]),
+    ("list<dict<str,int>>", {"t": "list", "item": _SI}, [{"a": 1}], [{"b": 2}],
+     [("top", [], "append", [{"c": 3}]), ("nested", [0], "setitem", ["zz", 9]), ("nested", [0], "clear", [])]),
+    ("dict<str,dict<str,int>>", {"t": "dict", "kf": {"t": "string"}, "vf": _SI}, {"k": {"n": 1}}, {"k": {"n": 2}},
+     [("top", [], "setitem", ["zz", {"y": 1}]), ("nested", [{"k": "k"}], "setitem", ["zz", 9])]),
+]
+TRANSFERS = ("setattr", "setitem", "load_tree", "ctor")
+
+
+def cross_cases():
+    for kind, fspec, default, assigned, muts in CROSS:
+        top = {"root": {"t": "schema", "fields": [["f", dict(fspec, default=_c(default))],
+                                                   ["w", {"t": "int", "default": _c(1)}]]}}
+        for source in ("default", "assigned"):
+            for transfer in TRANSFERS:
+                for via in ("c1", "c2"):
+                    for level, nav, meth, args in muts:
+                        yield {"driver": PID, "mode": "cross", "kind": kind, "spec": top, "source": source,
+                               "value": assigned, "transfer": transfer, "via": via, "level": level,
+                               "op": {"op": "mut", "nav": ["f"] + nav, "meth": meth, "args": args}}
+
+
+def check_cross(case):
+    """c1 holds a container (its default or an assigned value); c2 receives c1's value OBJECT by assignment / dotted
+    assignment / load_tree / constructor keyword; an in-place mutation through one configuration must not show in the
+    other.  returns (status, message): 'ok' | 'fail' | 'skip' (transfer or mutation not applicable)"""
+    bt = Built(case["spec"])
+    c1, c2 = bt.schema(), bt.schema()
+    try:
+        if case["source"] == "assigned":
+            c1.f = dec(case["value"])
+        obj = c1.f
+        if case["transfer"] == "setattr":
+            c2.f = obj
+        elif case["transfer"] == "setitem":
+            c2["f"] = obj
+        elif case["transfer"] == "load_tree":
+            c2.load_tree({"f": obj})
+        else:
+            c2 = bt.schema(f=obj)
+    except Exception as exc:  # pylint: disable=broad-except
+        return "skip", "transfer raised %s" % type(exc).__name__
+    target, other = (c1, c2) if case["via"] == "c1" else (c2, c1)
+    before = deep_snapshot(other)
+    exc = apply_op(bt, target, case["op"])
+    if exc is not None:
+        return "skip", "mutation raised %s" % type(exc).__name__
+    after = deep_snapshot(other)
+    if after != before:
+        d = first_diff(before, after)
+        return "fail", "after `c2.f <- c1.f` (%s, c1.f from %s) the mutation %s through %s shows in %s at %s: %s" % (
+            case["transfer"], case["source"], json.dumps(case["op"]), case["via"], "c2" if other is c2 else "c1", d[0], d[1])
+    return "ok", None
+
+
+def _cross_obligation(case):
+    dict_kind = case["kind"].startswith("dict")
+    mod, cls = ("fields.dict_field", "DictField") if dict_kind else ("fields.list_field", "ListField")
+    meth = "to_python" if case["transfer"] == "load_tree" else "_validate"
+    return "%s:%s.%s/post:C13.assigned-container-not-shared-between-configs" % (mod, cls, meth)
+
+
 OBLIGATIONS = {
     ("other-config", "list"): "fields.list_field:ListField.__setdefault__/post:C13.default-not-shared-between-configs",
     ("other-config", "dict"): "fields.dict_field:DictField.__setdefault__/post:C13.default-not-shared-between-configs",
@@ -583,15 +676,22 @@ def _report(rec, name, top, ops, findings):
 def rac(tier, seed):
     rec = Recorder(
         PID,
-        rule="15 schemas (typed/untyped/nested lists, typed/untyped dicts, nested Schema depth 3, ConfigType, dynamic "
+        rule="16 schemas (typed/untyped/nested lists, typed/untyped dicts, nested Schema depth 3, ConfigType, dynamic "
              "schemas, sub-schema/config type reused as item type of several lists, typed containers with pass-through "
-             "item fields and constant vs. fresh-callable mutable defaults); alphabet = every assignment / dotted "
+             "item fields and constant vs. fresh-callable mutable defaults, EMPTY typed/untyped container defaults); alphabet = every assignment / dotted "
              "assignment / map assignment / reset_value / load_tree / loads / in-place list+dict mutation (incl. nested "
              "items and dynamic extras) discovered on the live c1; 4 configurations of the one schema (built before "
-             "c1, after c1, after the mutations) + deep schema snapshot checked per sequence; distinct = (schema, ops)",
+             "c1, after c1, after the mutations) + deep schema snapshot checked per sequence; distinct = (schema, ops); plus cross-"
+             "configuration assignment cases: 6 all-proxy container kinds (typed flat/nested list+dict) x "
+             "source (default | assigned) x transfer of c1's value object into c2 (attribute, dotted, load_tree, "
+             "constructor keyword) x in-place mutation (top level / nested) through c1 or c2, other side must not change",
         bound="quick: per schema all sequences of length <= 2 when the alphabet has <= 50 letters (else all of length 1 "
               "+ 1500 seeded of length 2) + 150-250 seeded sequences of length 3; one item explored per list of "
-              "configurations (all items watched); thorough: seeded length 3-5 until the budget is used",
+              "configurations (all items watched); cross-assignment: only the 6 container kinds whose every level is a "
+              "library-made proxy (untyped pass-through fields and Config items shared by the user are out of scope: "
+              "`c2.f = c1.f` operates on both configurations, the property speaks of operations on one of the pair) x "
+              "2 sources x 4 transfers x mutation through c1|c2 at top and nested level; thorough: seeded length 3-5 "
+              "until the budget is used",
         tier=tier, seed=seed)
     with sandbox():
         for name, top in SPECS:
@@ -606,6 +706,16 @@ def rac(tier, seed):
             seqs += [tuple(rec.rng.randrange(n) for _ in range(3)) for _ in range(150 if n <= 24 else 250)]
             for seq in seqs:
                 _evaluate(rec, name, top, alphabet, seq)
+        for case in cross_cases():
+            status, msg = check_cross(case)
+            rec.case(key=("cross", case["kind"], case["source"], case["transfer"], case["via"], json.dumps(case["op"])),
+                     nontrivial=status != "skip",
+                     sample={k: case[k] for k in ("mode", "kind", "source", "transfer", "via", "op")}
+                     if (case["kind"], case["source"], case["transfer"], case["via"]) == ("list<schema>", "default", "setattr", "c1") else None)
+            if status == "fail":
+                rec.violation(obligation=_cross_obligation(case), what="[cross %s] %s" % (case["kind"], msg),
+                              witness_key="cross:%s:%s:%s" % (case["kind"], case["transfer"], case["level"]),
+                              replay=json.loads(json.dumps(case)))
         if tier != "quick":
             while not rec.out_of_time():
                 name, top = SPECS[rec.rng.randrange(len(SPECS))]
@@ -628,6 +738,11 @@ def _evaluate(rec, name, top, alphabet, seq):
 
 
 def replay(case):
+    if case.get("mode") == "cross":
+        with sandbox():
+            status, msg = check_cross(case)
+        return {"fails": status == "fail", "expected": "the in-place mutation is invisible through the other configuration",
+                "observed": msg or status}
     with sandbox():
         findings = check(case["spec"], case["ops"])
     hit = [f for f in findings if f[0] == case.get("clause")] or findings
